@@ -64,6 +64,7 @@ def gen(rng, tier, index):
         "via": gens.pick(rng, ("fit", "fit", "fit_transform")),
         "how": gens.pick(rng, forms.CONFIGURE),
         "xform": gens.pick(rng, forms.PRESENT),
+        "carry": gens.pick(rng, forms.CARRY),
         "past": bool(rng.random() < 0.4),  # the scaler object has been fitted before (other data, weights, flags)
         "pseed": int(rng.integers(1 << 30)),
     }
@@ -130,6 +131,7 @@ def run(case, j):
     else:
         j.lib("fit", est.fit, Xin, sample_weight=None if w is None else w.copy())
     j.note("fits_judged")
+    est = forms.carry(est, case.get("carry", "same"), j)  # what transforms afterwards may be a copy of what was fitted
     if w is not None and np.any(np.asarray(w) == 0):
         j.note("zero_weight_fits")
     T = np.asarray(est.transform(X))
